@@ -1134,11 +1134,19 @@ func c09key(kind int, big bool, ops []uint8, f *c09finding) string {
 	store := storeNames[kind]
 	k, rep := c09decode(ops[len(ops)-1])
 	opn := c09kindNames[k]
+	if f.rep >= 0 && !c09global(k) && f.rep != rep && kind == stTanMultiplexed && (k == kRemoveNode || k == kImport) {
+		// DESIGN.md section 5, F4: removeAllLocked deletes the other pair's log files
+		return fmt.Sprintf("C09:%s:%s destroys other replica", store, opn)
+	}
 	// family: the stores keep per replica caches (Pebble: cache.ps /
 	// cache.snapshotIndex, Tan: nodeStates.states) that RemoveNodeData does not
 	// clear, so a later save of an equal hard state / of a snapshot record with
-	// a not larger index is silently skipped
-	if f.rep >= 0 && (f.clause == "state" || f.clause == "snapshot") {
+	// a not larger index is silently skipped. Recognised by: the last operation
+	// is a save for the pair the failing observation is about, and
+	// RemoveNodeData was called for that pair since the store was last opened.
+	savesTo := k == kAppBoth || (!c09global(k) && rep == f.rep && k != kRemoveNode && k != kImport &&
+		k != kRemoveTo && k != kRemoveToPrev)
+	if f.rep >= 0 && savesTo && (f.clause == "state" || f.clause == "snapshot") {
 		m := newC09Model(big)
 		for _, o := range ops {
 			m.apply(o)
@@ -1150,10 +1158,6 @@ func c09key(kind int, big bool, ops []uint8, f *c09finding) string {
 			}
 			return fmt.Sprintf("C09:%s:%s saved after RemoveNodeData (same process) is lost", class, f.clause)
 		}
-	}
-	if f.rep >= 0 && !c09global(k) && f.rep != rep && kind == stTanMultiplexed && (k == kRemoveNode || k == kImport) {
-		// DESIGN.md section 5, F4
-		return fmt.Sprintf("C09:%s:%s destroys other replica", store, opn)
 	}
 	if big {
 		store += "+70KB"
